@@ -9,6 +9,9 @@ Two-run (relational) property, decided as LEMMAS over the contracts of C10 / C12
   * scaling by s > 0 multiplies d2 by s^2, hence distances (and every length spec, a sum of distances) by s, leaves
     ratios of lengths unchanged, and multiplies every closed-form volume spec of C13 by s^3.
 Renumbering invariance of sums needs a re-indexing (induction) lemma that z3 cannot do; it stays bounded only.
+
+C11's own carriers (register) are stated in the vocabulary of contracts/C10.py, whose import installs the process-wide library models
+of pyvc/ext_C10.py: vcheck therefore loads this module only for C11 itself (its source mentions ext_C10 -- see vcheck.load_registry).
 """
 import ast
 import inspect
